@@ -18,7 +18,10 @@ from harness.common import HarnessError
 RULE = ("cases: random rooted trees with 2..6 nodes (all ordered trees up to 5 nodes in the thorough tier), "
         "physical dims from {2,3}, bonds from {1,2,3} (so zero-padded/redundant bonds occur), TTNO with its own "
         "child order, Hermitian or not, 2 consecutive steps, three TDVP variants; every time_evolve call is one "
-        "evaluation; non-trivial = distinct (tree shape, variant, seed) with at least 3 nodes or a redundant bond")
+        "evaluation; plus real TTNS/TTNO pairs on random trees with 2..7 nodes whose observed event sequence of one "
+        "whole time step (site / link / two-site updates, centre moves, cache rebuilds; three TDVP classes) is "
+        "compared with the discipline machine; "
+        "non-trivial = distinct (tree shape, variant, seed) with at least 3 nodes or a redundant bond")
 PARTIAL = ["the local propagator itself (time_evolve) is property C20",
            "durations: proved for arbitrary segment lists (first_*/second_*/twoSite_* totals) and, with the C17 segment "
            "theorems (segs_edges_perm, segs_point_to_last, segs_degree), unconditionally for every well-formed tree "
@@ -27,8 +30,9 @@ PARTIAL = ["the local propagator itself (time_evolve) is property C20",
            "cache freshness: proved on an abstract machine (Ptn.C05.Disc.discipline_init, reads_fresh_first/second/"
            "two_site, discipline_invariant: no event of a whole time step reads a stale block, on every well-formed "
            "tree); init_cache_but_one is one atomic event of that machine (its internal build order is checked per run "
-           "in C17); the machine is tied to the real classes by the event comparison in harness/props/c17.py and, per "
-           "call, by the dense E^H H E oracle here",
+           "in C17); the machine is tied to the real classes by the event comparison run here on real networks "
+           "(whole time step of the three TDVP classes against the model's `events` answer; observation code shared "
+           "with harness/props/c17.py) and, per call, by the dense E^H H E oracle",
            "effective Hamiltonians: proved as leg graphs in the C04 leg-label calculus (Ptn.C05.Heff.site_heff_graph, "
            "link_heff_graph, two_site_heff_graph: rows / columns / bound pairs for every neighbour order), compared with "
            "the real functions by the 'heff' cases of harness/props/c04.py; that the leg graph evaluates to E^H H E "
@@ -185,6 +189,11 @@ def gen_cases(ctx):
         for v in variants:
             cases.append({"variant": v, "par": par, "seed": rng.randrange(10 ** 9), "herm": rng.random() < 0.5,
                           "steps": 3, "reset_after": 1})
+    # histories: the step size is changed through the public setter between two steps
+    for par in gen.HARD_SHAPES[:3] + [[-1, 0], [-1, 0, 0]]:
+        for v in variants:
+            cases.append({"variant": v, "par": par, "seed": rng.randrange(10 ** 9), "herm": rng.random() < 0.5,
+                          "steps": 2, "retime_after": rng.choice([0, 1]), "retime_n": rng.choice([2, 3, 4])})
     for _ in range(ctx.n(40, 200)):
         for v in variants:
             n = rng.choice([2, 3, 3, 4, 4, 5, 5, 6])
@@ -220,9 +229,21 @@ def run(ctx):
             _compare_model(ctx, c, o, mo)
     finally:
         rec.uninstall()
+    # tie of the cache-freshness discipline machine (Ptn.C05.Disc) to the code: the event sequence of a whole time
+    # step of the three TDVP classes, observed on real networks, against the model (harness shared with C17)
+    from harness.props import c17, c04
+    c17.run_real_parts(ctx, ["events"], ctx.n(12, 120))
+    # tie of the effective-Hamiltonian leg graphs (Ptn.C05.Heff) to the code (harness shared with C04)
+    c04.run_heff(ctx)
 
 
 def run_case(ctx, case):
+    if case.get("via") == "c17":
+        from harness.props import c17
+        return c17.run_case(ctx, case)
+    if case.get("via") == "c04":
+        from harness.props import c04
+        return c04.run_case(ctx, case)
     rec = Recorder()
     rec.install()
     try:
@@ -288,6 +309,11 @@ def _run_impl(ctx, case, rec):
                 rec.algo = None          # the reset itself performs no local propagation
                 algo.reset_to_initial_state()
                 rec.algo = algo
+            if case.get("retime_after") == step:
+                # the public setter changes the step size of an existing object: every later local update has to
+                # use the new value (durations are stated in terms of the step size in force)
+                algo.set_num_time_steps_constant_final_time(case["retime_n"])
+                dt = algo.time_step_size
             algo.run_one_time_step()
         except Exception as e:      # noqa: BLE001
             rec.algo = None
